@@ -349,7 +349,7 @@ def run(ctx):
     # IANA
     gl = ctx.func("pyxform.validators.pyxform.iana_subtags.validation:get_languages_with_bad_tags", "C20.R4")
     tags = {"iana_subtags_2_characters.txt": {"en", "fr", "pt"}, "iana_subtags_3_or_more_characters.txt": {"tlh", "pt-BR", "zh-Hant"}}
-    it = ctx.interp("C20.R4", hooks={"fnname:read_tags": lambda i, a, k, n: tags[a[0]]})
+    it = ctx.interp("C20.R4", hooks={"fnname:read_tags": lambda i, a, k, n: tags[a[0]] if a else set().union(*tags.values())})
     it.reset([])
     langs = ["default", "English (en)", "French", "Klingon (tlh)", "ab", "Elvish (qya)", "Português (pt-BR)", "Bad(en) x", "en"]
     got = it.call_function(gl, [langs], {}, None, gl.node)
